@@ -386,3 +386,25 @@ Example demo_values :
   [[(5, 1); (6, 1); (0, 1); (0, 1)]; [(1, 1); (3, 1); (5, 1); (7, 1)]; [(6, 1); (9, 1); (5, 1); (7, 1)];
    [(11, 2); (6, 1); (0, 1)]; [(2, 1); (3, 1); (15, 1)]; [(0, 1); (0, 1); (0, 1); (0, 1)]]%Z.
 Proof. vm_compute. reflexivity. Qed.
+
+(* ---------------------------------------------------------------- the empty signal is neutral for function backing *)
+(* EmptySignal + FunctionSignal and FunctionSignal + EmptySignal are FUNCTION-BACKED with exactly the
+   FunctionSignal's components, so a later re-gridding re-evaluates the function (with_times_fun_lemma)
+   instead of interpolating stored samples *)
+Lemma add_with_empty_keeps_function_lemma : forall st a b st' id,
+  ((s_cls a = Empty /\ s_cls b = Fun) \/ (s_cls a = Fun /\ s_cls b = Empty)) ->
+  do_add st a b = (st', RObj id) ->
+  exists o', get_obj st' id = Some o' /\ s_cls o' = Fun /\
+             s_comps o' = s_comps (match s_cls a with Empty => b | _ => a end).
+Proof.
+  intros st a b st' id C H. unfold do_add in H.
+  destruct (negb (list_eqb (times_of st a) (times_of st b))); [discriminate|].
+  destruct (add_type (s_vt a) (s_vt b)); [|discriminate].
+  destruct C as [[Ca Cb]|[Ca Cb]]; rewrite Ca in *; try rewrite Cb in *;
+    unfold do_copy in H; try rewrite Ca in H; try rewrite Cb in H;
+    rewrite mk_fun_spec in H; unfold set_vt, get_obj in H; simpl in H;
+    rewrite nth_error_app2 in H by lia; rewrite Nat.sub_diag in H; simpl in H;
+    unfold set_obj in H; simpl in H; rewrite upd_app_last in H; inversion H; subst;
+    eexists; (split; [unfold get_obj; simpl; rewrite nth_error_app2 by lia; rewrite Nat.sub_diag; reflexivity|]);
+    split; reflexivity.
+Qed.
